@@ -143,6 +143,20 @@ def geometry_job(job):
                 taub = data(sp.staticForcesBody(Wrench(Fb.reshape((6, 1)).copy())))
             ev.append(("K3 body interface gives the same leg forces", reg, float(np.linalg.norm(taub - tau)) / max(1.0, float(np.linalg.norm(tau))),
                        1e-8, case))
+            # the forces of the latest query are what the platform remembers: the argument-less forms answer for them,
+            # whichever interface the query came through (a different load in between shows a stale memory)
+            F2 = np.array([rng.uniform(-100, 100) for _ in range(6)])
+            with quiet():
+                sp.staticForces(Wrench(F2.reshape((6, 1)).copy()))
+                sw_s = data(sp.sumActuatorWrenches())
+                sp.staticForcesBody(Wrench(Fb.reshape((6, 1)).copy()))
+                sw_b = data(sp.sumActuatorWrenches())
+                mem_b = data(sp.getActuatorForces())
+            ev.append(("K3 remembered forces: summed leg wrench = -F after a space-frame query", reg,
+                       float(np.linalg.norm(sw_s + F2)) / float(np.linalg.norm(F2)), 1e-8, dict(case, F2=F2.tolist())))
+            ev.append(("K3 remembered forces: summed leg wrench = -F after a body-frame query", reg, float(np.linalg.norm(sw_b + F)) / nF, 1e-8, case))
+            ev.append(("K3 remembered forces = the forces returned", reg, float(np.linalg.norm(mem_b - taub)) / max(1.0, float(np.linalg.norm(taub))),
+                       1e-8, case))
             with quiet():
                 backb = data(sp.staticForcesInvBody(tau.copy()))
             ev.append(("K3 staticForcesInvBody(f) = F in the body frame", reg, float(np.linalg.norm(backb - Fb)) / nF, 1e-8, case))
